@@ -74,7 +74,10 @@ pub struct ServerSession;
 
 fn exec_server(c: &SysCase) -> (Outcome, bool) {
     let mut out = Outcome::new();
-    let (_, ids) = concretize(&c.history);
+    // histories with runs can be thousands of ids long; a burst of that many datagrams overflows loopback socket buffers,
+    // and loss is not what this check is about: the system halves use the first 250 ids
+    let (_, mut ids) = concretize(&c.history);
+    ids.truncate(250);
     let bits = model_bits(&ids);
     classify(&mut out, &ids, &bits);
     let spec = spec_of(c);
@@ -240,7 +243,10 @@ fn reply_payload(k: usize, j: usize, pid: u64) -> Vec<u8> {
 
 fn exec_client(c: &SysCase) -> (Outcome, bool) {
     let mut out = Outcome::new();
-    let (_, ids) = concretize(&c.history);
+    // histories with runs can be thousands of ids long; a burst of that many datagrams overflows loopback socket buffers,
+    // and loss is not what this check is about: the system halves use the first 250 ids
+    let (_, mut ids) = concretize(&c.history);
+    ids.truncate(250);
     let bits = model_bits(&ids);
     classify(&mut out, &ids, &bits);
     let spec = spec_of(c);
